@@ -4,6 +4,7 @@ import (
 	"context"
 	"fmt"
 	"runtime"
+	"strings"
 	"sync"
 	"time"
 
@@ -112,6 +113,7 @@ func suiteLoops(c *Ctx) {
 		c.Violation("C16", "goroutine-leak", fmt.Sprintf("%d goroutines before the scenarios, %d after all nodes were shut down", base, g), "suite loops")
 	}
 	stressLoops(c)
+	shutdownScenarios(c)
 }
 
 // stressLoops: many concurrent API callers against one running MainLoop with the REAL timer-based
@@ -246,5 +248,186 @@ func stressLoops(c *Ctx) {
 		}
 		c.Class(fmt.Sprintf("stress/early%v", cancelEarly))
 		c.Nontrivial(fmt.Sprintf("stress/%d/%d", it, len(roundHs)))
+	}
+}
+
+
+// failingMembership: RequestOrderedCommittee fails for the first `failFor` calls (forever when negative).
+type failingMembership struct {
+	*FakeMembership
+	mu      sync.Mutex
+	failFor int
+	calls   int
+	last    time.Time
+}
+
+func (m *failingMembership) RequestOrderedCommittee(ctx context.Context, h primitives.BlockHeight, seed uint64, ref primitives.TimestampSeconds) ([]interfaces.CommitteeMember, error) {
+	m.mu.Lock()
+	m.calls++
+	m.last = time.Now()
+	fail := m.failFor < 0 || m.calls <= m.failFor
+	m.mu.Unlock()
+	if fail {
+		return nil, fmt.Errorf("committee contract unavailable")
+	}
+	return m.FakeMembership.RequestOrderedCommittee(ctx, h, seed, ref)
+}
+
+// libraryGoroutines counts goroutines that are inside the library's loops (from a full stack dump).
+func libraryGoroutines() (int, string) {
+	buf := make([]byte, 1<<20)
+	n := runtime.Stack(buf, true)
+	cnt := 0
+	var which []string
+	for _, g := range strings.Split(string(buf[:n]), "\n\n") {
+		for _, fn := range []string{"(*WorkerLoop).Run", "(*MainLoop).run", "(*TimerBasedElectionTrigger)", "requestOrderedCommitteePersist"} {
+			if strings.Contains(g, "lean-helix-go") && strings.Contains(g, fn) {
+				cnt++
+				which = append(which, fn)
+				break
+			}
+		}
+	}
+	return cnt, strings.Join(which, ",")
+}
+
+// shutdownScenarios (C16, C14): cancellation and sync while the worker is inside an SPI call that
+// is slow to return, or polling a failing committee contract.  Monitors only.
+func shutdownScenarios(c *Ctx) {
+	r := c.Rng
+	rounds := 3
+	if c.Thorough() {
+		rounds = 20
+	}
+	for it := 0; it < rounds; it++ {
+		for _, kind := range []string{"request", "validate", "membership", "membership-then-sync"} {
+			w := NewWorld(100)
+			var members []interfaces.CommitteeMember
+			for i := 0; i < 4; i++ {
+				members = append(members, interfaces.CommitteeMember{Id: memberId(i), Weight: 1})
+			}
+			w.Committee = func(h uint64) []interfaces.CommitteeMember { return members }
+			me := 0 // leader of view 0: proposes on start
+			if kind == "validate" {
+				me = 1
+			}
+			cfg, bu, _, _ := simpleConfig(w, memberId(me))
+			linger := time.Duration(20+r.Intn(150)) * time.Millisecond
+			inSpi := make(chan struct{}, 16)
+			bu.Gate = func(ctx context.Context, k string) {
+				select {
+				case inSpi <- struct{}{}:
+				default:
+				}
+				<-ctx.Done()
+				time.Sleep(linger) // a consumer that needs a while to notice the cancellation
+			}
+			fm := &failingMembership{FakeMembership: &FakeMembership{w: w, me: memberId(me)}}
+			if strings.HasPrefix(kind, "membership") {
+				fm.failFor = -1
+				cfg.Membership = fm
+			}
+			var mu sync.Mutex
+			stopped := false
+			late := 0
+			var roundHs []uint64
+			ml := leanhelix.NewLeanHelix(cfg, func(ctx context.Context, block interfaces.Block, blockProof []byte) error {
+				mu.Lock()
+				defer mu.Unlock()
+				if stopped {
+					late++
+				}
+				return nil
+			}, func(ctx context.Context, newHeight primitives.BlockHeight, prevBlock interfaces.Block, canBeFirstLeader bool) {
+				mu.Lock()
+				defer mu.Unlock()
+				roundHs = append(roundHs, uint64(newHeight))
+				if stopped {
+					late++
+				}
+			})
+			ctx, cancel := context.WithCancel(context.Background())
+			ml.Run(ctx)
+			net := &Net{w: w}
+			tctx, tc := context.WithTimeout(ctx, time.Second)
+			ml.UpdateState(tctx, nil, nil)
+			tc()
+			if kind == "validate" {
+				b := &FakeBlock{H: 1, Id: 77}
+				a := &Adversary{net: net, km: &FakeKeyManager{w: w, me: memberId(0)}}
+				tctx, tc := context.WithTimeout(ctx, time.Second)
+				ml.HandleConsensusMessage(tctx, a.mkPP(memberId(0), 100, 1, 0, b))
+				tc()
+			}
+			if strings.HasPrefix(kind, "membership") {
+				time.Sleep(time.Duration(5+r.Intn(30)) * time.Millisecond)
+			} else {
+				select {
+				case <-inSpi:
+				case <-time.After(2 * time.Second):
+					c.Class("shutdown-scenario/" + kind + "/spi-not-reached")
+				}
+			}
+			if kind == "membership-then-sync" {
+				// C14: a sync must get the worker out of the polling loop of the old height and take effect
+				fm.mu.Lock()
+				fm.failFor = fm.calls + 2
+				fm.mu.Unlock()
+				tctx, tc := context.WithTimeout(ctx, time.Second)
+				err := ml.UpdateState(tctx, &FakeBlock{H: 7, Id: 1}, net.syncProof(7))
+				tc()
+				if err != nil {
+					c.Violation("C14", "updatestate-blocked", fmt.Sprintf("UpdateState(7) while the worker polls a failing committee contract: %v", err), "shutdown-scenario "+kind)
+				} else {
+					ok := false
+					for k := 0; k < 200 && !ok; k++ {
+						time.Sleep(5 * time.Millisecond)
+						ok = uint64(ml.State().Height()) == 8
+					}
+					if !ok {
+						c.Violation("C14", "sync-not-effective", fmt.Sprintf("UpdateState(block 7) accepted while the worker polled the committee contract for height %d; one second later the node decides height %d", 1, uint64(ml.State().Height())), "shutdown-scenario "+kind)
+					}
+				}
+			}
+			t0 := time.Now()
+			cancel()
+			wctx, wc := context.WithTimeout(context.Background(), 3*time.Second)
+			ml.WaitUntilShutdown(wctx)
+			timedOut := wctx.Err() != nil
+			wc()
+			took := time.Since(t0)
+			mu.Lock()
+			stopped = true
+			mu.Unlock()
+			live, which := libraryGoroutines()
+			fm.mu.Lock()
+			callsAtShutdown := fm.calls
+			fm.mu.Unlock()
+			if timedOut || took > 2*time.Second {
+				c.Violation("C16", "shutdown-slow", fmt.Sprintf("cancelled while the worker was in %s: WaitUntilShutdown took %v (the SPI returns %v after cancellation)", kind, took, linger), "shutdown-scenario "+kind)
+			} else if live > 0 {
+				c.Violation("C16", "loop-alive-after-shutdown", fmt.Sprintf("cancelled while the worker was in %s: WaitUntilShutdown returned after %v but %d library goroutines are still running (%s)", kind, took, live, which), "shutdown-scenario "+kind)
+			}
+			time.Sleep(linger + 60*time.Millisecond)
+			mu.Lock()
+			if late > 0 {
+				c.Violation("C16", "activity-after-shutdown", fmt.Sprintf("cancelled while the worker was in %s: %d callbacks after WaitUntilShutdown returned", kind, late), "shutdown-scenario "+kind)
+			}
+			mu.Unlock()
+			fm.mu.Lock()
+			if fm.calls > callsAtShutdown+1 {
+				c.Violation("C16", "activity-after-shutdown", fmt.Sprintf("%d committee requests after WaitUntilShutdown returned", fm.calls-callsAtShutdown), "shutdown-scenario "+kind)
+			}
+			fm.mu.Unlock()
+			if live2, which2 := libraryGoroutines(); live2 > 0 && !timedOut {
+				c.Violation("C16", "goroutine-leak", fmt.Sprintf("cancelled while the worker was in %s: %d library goroutines still exist %v after shutdown (%s)", kind, live2, linger+60*time.Millisecond, which2), "shutdown-scenario "+kind)
+			}
+			if timedOut {
+				// do not let a stuck node poison the following scenarios' goroutine counts
+				time.Sleep(50 * time.Millisecond)
+			}
+			c.Class("shutdown-scenario/" + kind)
+			c.Nontrivial(fmt.Sprintf("shutdown-scenario/%s/%d", kind, int(linger/(50*time.Millisecond))))
+		}
 	}
 }
